@@ -268,4 +268,26 @@ class Builder:
             if top and dict_ok and len(e) > 2 and e[2] == "dict":
                 return d
             return h.AnonymousBundle(**d)
+        if t in ("orphan", "foreign"):
+            sig = h.Signal(name="zz_%s" % t, width=e[1])
+            if t == "foreign":
+                other = h.Module(name="ForeignOwner")
+                other.add(sig)
+                self._keep = getattr(self, "_keep", []) + [other]
+            return sig
+        if t in ("orphan_bun", "foreign_bun"):
+            bi = self.bundle(e[1])()
+            bi.name = "zz_%s" % t
+            if t == "foreign_bun":
+                other = h.Module(name="ForeignOwner")
+                other.add(bi)
+                self._keep = getattr(self, "_keep", []) + [other]
+            return bi
+        if t in ("pref_orphan", "pref_foreign"):
+            io = h.Instance(of=self.target(e[1], 999), name="zz_inst")
+            if t == "pref_foreign":
+                other = h.Module(name="ForeignOwner")
+                other.add(io)
+                self._keep = getattr(self, "_keep", []) + [other]
+            return getattr(io, e[2])
         raise ValueError("unknown expr %r" % (t,))
